@@ -1,12 +1,13 @@
 import JominiModel.Driver.Util
 import JominiModel.Model.TextDe
+import JominiModel.Spec.TextDoc
 /-
 ops of property C02 (harness/src/props/c02.rs):
   tde_tape   <enc> <ty> <tape>    …   (trailing replay / oracle arguments ignored)
   tde_stream <enc> <ty> <rtokens> …
 -/
 namespace Jomini.Driver.C02
-open Jomini Jomini.Driver Jomini.TextDe
+open Jomini Jomini.Driver Jomini.TextDe Jomini.TextDoc
 
 def ascii (b : Bytes) : String := String.ofList (b.map (fun x => Char.ofNat x.toNat))
 def bytesOf (s : String) : Bytes := s.toUTF8.toList
@@ -155,6 +156,74 @@ def parseRTok (s : String) : Option RTok :=
     | 'Q' :: ':' :: r => (parseHex (String.ofList r)).map .quo
     | _ => none
 
+def showTTok : TTok → String
+  | .arr e m => "A" ++ (if m then "m" else "") ++ toString e
+  | .obj e m => "O" ++ (if m then "m" else "") ++ toString e
+  | .mixedC => "M"
+  | .unq s => "U:" ++ toHex s
+  | .quo s => "Q:" ++ toHex s
+  | .param s => "P:" ++ toHex s
+  | .undef s => "N:" ++ toHex s
+  | .op o => "Op:" ++ opName o
+  | .end_ i => "E" ++ toString i
+  | .hdr s => "H:" ++ toHex s
+
+def showRTok : RTok → String
+  | .open_ => "Open" | .close => "Close" | .op o => "Op:" ++ opName o
+  | .unq s => "U:" ++ toHex s | .quo s => "Q:" ++ toHex s | .err => "Err"
+
+def joinOrDash (l : List String) : String := if l.isEmpty then "-" else ",".intercalate l
+
+def isHexCh (c : Char) : Bool := c.isDigit || ('a' ≤ c && c ≤ 'f') || c == '-'
+
+mutual
+/-- node := u<hex> | q<hex> | o[field;..] | a[node;..] -/
+def parseNode : Nat → List Char → Option (Node × List Char)
+  | 0, _ => none
+  | f + 1, cs =>
+    match cs with
+    | 'u' :: r => (parseHex (String.ofList (r.takeWhile isHexCh))).map (fun b => (.leaf ⟨b, false⟩, r.dropWhile isHexCh))
+    | 'q' :: r => (parseHex (String.ofList (r.takeWhile isHexCh))).map (fun b => (.leaf ⟨b, true⟩, r.dropWhile isHexCh))
+    | 'o' :: '[' :: r => (parseFieldsD f r).map (fun (fs, r) => (.obj fs, r))
+    | 'a' :: '[' :: r => (parseNodes f r).map (fun (vs, r) => (.arr vs, r))
+    | _ => none
+def parseFieldsD : Nat → List Char → Option (List (Bytes × Op × Node) × List Char)
+  | 0, _ => none
+  | f + 1, cs =>
+    match cs with
+    | ']' :: r => some ([], r)
+    | _ =>
+      let key := cs.takeWhile isHexCh
+      match cs.dropWhile isHexCh with
+      | '~' :: r =>
+        let opn := r.takeWhile (· != '~')
+        (match r.dropWhile (· != '~') with
+         | '~' :: r2 =>
+           (parseHex (String.ofList key)).bind (fun k => (parseOp (String.ofList opn)).bind (fun o =>
+             (parseNode f r2).bind (fun (v, r3) =>
+               let r3 := match r3 with | ';' :: r' => r' | _ => r3
+               (parseFieldsD f r3).map (fun (fs, r4) => ((k, o, v) :: fs, r4)))))
+         | _ => none)
+      | _ => none
+def parseNodes : Nat → List Char → Option (List Node × List Char)
+  | 0, _ => none
+  | f + 1, cs =>
+    match cs with
+    | ']' :: r => some ([], r)
+    | _ =>
+      (parseNode f cs).bind (fun (v, r) =>
+        let r := match r with | ';' :: r' => r' | _ => r
+        (parseNodes f r).map (fun (vs, r2) => (v :: vs, r2)))
+end
+
+def parseDoc (s : String) : Option Doc :=
+  match s.toList with
+  | 'd' :: '[' :: r =>
+    (match parseFieldsD (s.length + 2) r with
+     | some (fs, []) => some fs
+     | _ => none)
+  | _ => none
+
 def handle : Handler
   | "tde_tape" :: enc :: ty :: tape :: _ => do
     let enc ← parseEnc enc
@@ -166,6 +235,11 @@ def handle : Handler
     let ty ← parseTyStr ty
     let toks ← (splitComma rtoks).mapM parseRTok
     pure (renderR (deStream enc ty toks))
+  | ["spec_doc", enc, ty, doc, _] => do
+    let enc ← parseEnc enc
+    let ty ← parseTyStr ty
+    let d ← parseDoc doc
+    pure (renderR (valueOf enc ty d) ++ "|" ++ joinOrDash ((lexemes d).map showRTok) ++ "|" ++ joinOrDash ((tapeOf d).map showTTok))
   | _ => none
 
 end Jomini.Driver.C02
